@@ -142,7 +142,8 @@ def run(ctx):
                 if o.kind == 'call' and txt(o.val.func) == 'self._pop_entry':
                     last_iter = max([x.seq for x in p.ops if x.kind == 'loop_iter' and x.seq < o.seq] or [-1])
                     ts = [(t, truth) for t, truth, x in tests_on(w, p, upto_seq=o.seq) if x.seq > last_iter]
-                    ok = any(t.endswith('[2] is _REMOVED') and truth for t, truth in ts)
+                    ok = any((t.endswith('[2] is _REMOVED') and truth) or (t.endswith('[2] is not _REMOVED') and not truth)
+                             for t, truth in ts)
                     ctx.ob('T9.cullonly', '%s._cull' % cls, '_cull pops an entry only when its task slot is the tombstone', ok, loc=loc(cu, o.node),
                            detail=str(ts))
         ln = prog.resolve(ci, '__len__')
@@ -152,8 +153,12 @@ def run(ctx):
     for name, m in base.members.items():
         if not isinstance(m, FuncInfo):
             continue
+        pq_alias = {x.targets[0].id for x in ast.walk(m.node) if isinstance(x, ast.Assign) and txt(x.value) == 'self._pq'
+                    and isinstance(x.targets[0], ast.Name)}
         for n in ast.walk(m.node):
-            if isinstance(n, ast.Assign) and isinstance(n.targets[0], ast.Tuple) and ('_pq' in txt(n.value) or '_pop_entry' in txt(n.value)):
+            if isinstance(n, ast.Assign) and isinstance(n.targets[0], ast.Tuple) and (
+                    '_pq' in txt(n.value) or '_pop_entry' in txt(n.value) or
+                    (isinstance(n.value, ast.Subscript) and txt(n.value.value) in pq_alias)):
                 t = n.targets[0]
                 ctx.ob('T12.layout', '%s.%s' % (BASE, name), 'entry destructuring `%s` has the 3-slot layout with the task last' % txt(t),
                        len(t.elts) == 3 and txt(t.elts[2]) == 'task', loc=loc(m, n))
